@@ -30,6 +30,9 @@ from common import sx, cps, parse_sx
 DRIVER = 'drv_C17'
 PY = sys.executable
 HERE = os.path.abspath(__file__)
+# which semantics of the model the library is compared with: `current` (Model/GenHistory.lean, the claim); the named ones
+# (`actual`, `fixed`) are for trying a patched checkout before the switch is flipped
+SEM = os.environ.get('VERIF_C17_SEM', 'current')
 
 # defects known on the unchanged tree (/verif/fixes/C17-*.md).  Until the coordinator has registered them in known_findings.json
 # (or applied the fixes) they are reported as KNOWN-FINDING from here; `report` is called with replay dicts carrying these keys.
@@ -51,10 +54,23 @@ KNOWN_LOCAL = [
 ]
 
 
+# a locally known finding is applied only while the MODEL still claims that defect for the library (flags of the semantics the
+# library is compared with, `gen.flags`): flipping `current := fixed` in Model/GenHistory.lean un-suppresses all of them at once
+STILL_CLAIMED = {
+    'C17-append-mode': lambda f: f.get('genMode') == 'append',
+    'C17-fix-generator-state-leak': lambda f: not (f.get('resetContexts') == 'true' and f.get('resetCounter') == 'true'),
+    'C17-fielddef-leak': lambda f: f.get('resetFieldDefs') != 'true',
+    'C17-new-project-rerun': lambda f: f.get('pyprojMode') == 'append' or f.get('toxMode') == 'append',
+}
+MODEL_FLAGS = None          # None: model unavailable — every local finding stays applicable
+
+
 def report(ctx, what, replay):
     """ctx.violation, after the locally known findings (until the coordinator has registered them)"""
     from common import matches_known
     for k in KNOWN_LOCAL:
+        if MODEL_FLAGS is not None and not STILL_CLAIMED[k['id']](MODEL_FLAGS):
+            continue
         if matches_known(k, replay):
             if k['id'] not in [x[0] for x in ctx.known_hits]:
                 ctx.known_hits.append((k['id'], k['what']))
@@ -662,8 +678,10 @@ def oracle(case, real, fresh_real):
             ref = {p[len(fd):]: t for p, t in fr['snap'].items() if p.startswith(fd)}
             earlier_here = [e for e in case[:k] if e['gen'] in ('soup', 'fix', 'asn1', 'newproj', 'useredit')
                             and any(x == ev['dir'] for x in ev_dirs(e))]
+            # the directory was empty or held only an earlier output of the same target (for the ASN.1 generator, whose file
+            # names depend on the input: any earlier ASN.1 output in this directory)
             only_same_target = all(e['gen'] in ('soup', 'fix', 'asn1') and same_target(e, ev) for e in earlier_here) \
-                and set(mine_before) <= set(ref)
+                and (g == 'asn1' or set(mine_before) <= set(ref))
             kinds = set()
             what = []
             if res['outcome'] != fr['outcome']:
@@ -1008,8 +1026,8 @@ def evaluate(ctx, pool, cases, label_of):
             if ev['dir'][0] == 'app':
                 return [sx(ev_sx({'gen': 'newproj', 't': ev['dir'][1], 'name': ev['dir'][2], 'apps': [[ev['dir'][3], 'ouch']]})), 'newproc']
             return []
-        lines = ['gen.hist current ' + ' '.join(pre_sx(fresh_evs[k]) + [sx(ev_sx(fresh_evs[k]))]) for k in keys]
-        lines += ['gen.hist current ' + ' '.join(sx(ev_sx(e)) for e in c) for c in cases]
+        lines = [f'gen.hist {SEM} ' + ' '.join(pre_sx(fresh_evs[k]) + [sx(ev_sx(fresh_evs[k]))]) for k in keys]
+        lines += [f'gen.hist {SEM} ' + ' '.join(sx(ev_sx(e)) for e in c) for c in cases]
         out = ctx.driver.ask(lines)
         fresh_ans = dict(zip(keys, out[:len(keys)]))
         ans = out[len(keys):]
@@ -1105,6 +1123,7 @@ def run(ctx):
                        'families with overlapping field names, message ids, group names; distinct = distinct history, '
                        'non-trivial = at least two invocations')
     pool = Pool(REPO, 12)
+    load_flags(ctx)
     try:
         cases, labels = [], []
         cdir = os.path.join(VERIF, 'corpus', 'C17')
@@ -1125,11 +1144,19 @@ def run(ctx):
             evaluate(ctx, pool, cases[i:i + B], lambda ci, i=i: labels[i + ci])
         # unknown violations: shrink the first one (drop events while the same kind of failure persists)
         shrink_unknown(ctx, pool)
-        if ctx.driver.available:
-            cur = ctx.driver.ask(['gen.current'])[0]
-            ctx.notes.append(f'model semantics compared with the library: {cur}')
     finally:
         pool.close()
+
+
+def load_flags(ctx):
+    global MODEL_FLAGS
+    MODEL_FLAGS = None
+    if ctx.driver.available:
+        try:
+            MODEL_FLAGS = dict(kv.split('=') for kv in ctx.driver.ask([f'gen.flags {SEM}'])[0].split())
+            ctx.notes.append(f'model semantics compared with the library ({SEM}): ' + ' '.join(f'{k}={v}' for k, v in MODEL_FLAGS.items()))
+        except Exception:  # noqa
+            MODEL_FLAGS = None
 
 
 def shrink_unknown(ctx, pool):
@@ -1166,6 +1193,8 @@ def shrink_unknown(ctx, pool):
                     break
         rep2 = dict(rep)
         rep2['history'], rep2['step'] = hist, len(hist) - 1
+        if len(hist) != len(rep['history']):
+            what = f'{what}  [shrunk to {len([e for e in hist if e["gen"] != "newproc"])} invocations, the last one fails]'
         ctx.violations[0] = (what, rep2)
     except Exception:  # noqa
         pass
@@ -1178,6 +1207,7 @@ def replay(ctx, path):
     hist = rep['history']
     ctx.cov['rule'] = 'replay of ' + path
     pool = Pool(REPO, 4)
+    load_flags(ctx)
     try:
         real, fresh_real = evaluate(ctx, pool, [hist], lambda ci: rep.get('label', 'replay'))
         ctx.case('replay-marker')
